@@ -284,6 +284,55 @@ def run(ctx):
                     why = "handler catches %s" % names
     ctx.ob("R19.wrap", "the function that opens connections maps database/OS errors to DBError", ok,
            "%s:%d" % (mod.path, fi.node.lineno), "" if ok else why)
+    # error paths change no file: the abstract paths do not enter the handlers of
+    # calls that fail outside the model (connect on junk, a read error), so what
+    # those handlers and finally blocks do is decided syntactically here
+    FS_MUT = ("os.remove", "os.unlink", "os.rename", "os.replace", "shutil.move",
+              "shutil.rmtree", "os.rmdir", "os.truncate", "shutil.copy", "shutil.copyfile",
+              "shutil.copy2", "os.link", "os.symlink", "open", "io.open", "os.open")
+    FS_METH = ("unlink", "rename", "replace", "rmdir", "write_text", "write_bytes", "touch")
+    nerr = 0
+    for f in mod.functions.values():
+        for node in ast.walk(f.node):
+            if not isinstance(node, ast.Try):
+                continue
+            blocks = [("except", h.body, h.lineno) for h in node.handlers]
+            if node.finalbody:
+                blocks.append(("finally", node.finalbody, node.finalbody[0].lineno))
+            for (kind, body, line) in blocks:
+                nerr += 1
+                bad = [n for b in body for n in ast.walk(b) if isinstance(n, ast.Call) and
+                       (dotted(n.func) in FS_MUT or
+                        (isinstance(n.func, ast.Attribute) and n.func.attr in FS_METH and
+                         not isinstance(n.func.value, ast.Name)))]
+                bad += [n for b in body for n in ast.walk(b) if isinstance(n, ast.Call) and
+                        isinstance(n.func, ast.Attribute) and n.func.attr in FS_METH and
+                        isinstance(n.func.value, ast.Name) and n.func.value.id not in ("os", "shutil")
+                        and n not in bad]
+                # removing the function's own scratch file (a local name bound to
+                # the result of a call, e.g. mkstemp) on failure is the one
+                # clean-up that touches nothing the operator owns
+                def _scratch_only(call):
+                    if dotted(call.func) not in ("os.remove", "os.unlink") or len(call.args) != 1:
+                        return False
+                    a = call.args[0]
+                    if not isinstance(a, ast.Name) or a.id in f.params:
+                        return False
+                    binds = [x for x in ast.walk(f.node) if isinstance(x, ast.Assign) and any(
+                        isinstance(t, (ast.Name, ast.Tuple)) and a.id in [
+                            y.id for y in ast.walk(t) if isinstance(y, ast.Name)]
+                        for t in x.targets)]
+                    return bool(binds) and all(
+                        isinstance(x.value, ast.Call) and any(
+                            k in (dotted(x.value.func) or "") for k in ("mkstemp", "temporary"))
+                        for x in binds)
+                bad = [c for c in bad if not _scratch_only(c)]
+                ctx.ob("R19.ro", "%s: the %s block at line %d changes no file" % (
+                    f.name, kind, line), not bad, "%s:%d" % (mod.path, bad[0].lineno if bad else line),
+                    "" if not bad else "%s is called on an error path: a file the server "
+                    "rejects (not a database, damaged, unreadable) is changed or removed "
+                    "instead of being left as it was" % (dotted(bad[0].func) or bad[0].func.attr))
+    ctx.require("R19.ro", nerr, 2, "except / finally blocks in the database module")
     # the connect events really are under that handler
     for en in model.DB_ENTRIES[:1]:
         for p in model.paths(en)[:3]:
